@@ -241,6 +241,14 @@ func (bucket *Bucket) getOrCreateCollection(name sgbucket.DataStoreNameImpl, orC
 	bucket.mutex.Lock()
 	defer bucket.mutex.Unlock()
 
+	// This cache is per handle: forget an entry whose collection has been dropped (and maybe created
+	// again, with a new id) through another handle since it was cached here.
+	if collection, ok := bucket.collections[name]; ok {
+		if id, err := bucket._getCollectionID(name.Scope, name.Collection); err != nil || id != collection.id {
+			delete(bucket.collections, name)
+		}
+	}
+
 	if collection, ok := bucket.collections[name]; ok {
 		return collection, nil
 	}
